@@ -3,6 +3,8 @@ Correspondence: md.compute_neighbors and md.compute_neighborlist vs Model/Neighb
 `nbs`, `nbl`), pairs within 1e-5 nm of the cutoff excluded by the model's classification.
 Oracle: brute-force minimum-image distances in float64; symmetry / irreflexivity / no duplicates; agreement with
 compute_distances."""
+import json
+import os
 import warnings
 from fractions import Fraction
 
@@ -334,6 +336,46 @@ def degenerate_extent_stream(ctx, md, viol):
                 break
 
 
+def tiny_cutoff_stream(ctx, md, viol):
+    """Cutoffs far below the cell size, and one atom far away from the others without a cell: the voxel grid must not be sized by
+    extent/cutoff alone.  Run in a child process with an address-space limit: exhausting memory ends the process (std::bad_alloc)."""
+    import subprocess, sys, textwrap
+    code = textwrap.dedent("""
+        import sys, json, resource
+        resource.setrlimit(resource.RLIMIT_AS, (6 << 30, 6 << 30))
+        sys.path.insert(0, %r)
+        import mdv_boot  # noqa: F401
+        import numpy as np, mdtraj as md
+        rs = np.random.RandomState(%d)
+        out = []
+        xyz = (rs.rand(1, 40, 3) * [3, 4, 5]).astype(np.float32)
+        xyz[0, 1] = xyz[0, 0] + [2e-4, 0, 0]
+        for ang in ([90, 90, 90], [80, 95, 110]):
+            t = md.Trajectory(xyz, None, unitcell_lengths=[[3, 4, 5]], unitcell_angles=[ang])
+            for cut in (1e-3, 5e-4, 1e-6):
+                nl = md.compute_neighborlist(t, cut)
+                out.append([sorted(int(j) for j in x) for x in nl][:2] + [sum(len(x) for x in nl)])
+        x = np.array([[[0, 0, 0], [.1, 0, 0], [0, 1e5, 1e5]]], np.float32)
+        out.append([sorted(int(j) for j in v) for v in md.compute_neighborlist(md.Trajectory(x, None), 0.5)])
+        print("RESULT " + json.dumps(out))
+    """) % (os.path.dirname(os.path.dirname(os.path.abspath(__file__))), ctx.seed)
+    ctx.case(None, ("tiny-cutoff",)); ctx.count("tiny-cutoff / far-atom calls (child process)", 7)
+    try:
+        pr = subprocess.run([sys.executable, "-c", code], capture_output=True, text=True, timeout=600)
+    except subprocess.TimeoutExpired:
+        viol("neighborlist|tiny-cutoff|hangs", "compute_neighborlist with cutoffs of 1e-3..1e-6 nm in a 3 x 4 x 5 nm cell did not finish in 600 s", dict(cutoffs=[1e-3, 5e-4, 1e-6]))
+        return
+    line = [l for l in pr.stdout.splitlines() if l.startswith("RESULT ")]
+    if not line:
+        viol("neighborlist|tiny-cutoff|aborts", "compute_neighborlist with cutoffs of 1e-3..1e-6 nm in a 3 x 4 x 5 nm cell (or with one atom 1e5 nm away, no cell) ended the process (exit status %s): %s" % (
+            pr.returncode, (pr.stderr.strip().splitlines() or ["no message"])[-1][:160]), dict(cutoffs=[1e-3, 5e-4, 1e-6]))
+        return
+    res = json.loads(line[0][7:])
+    want = [[[1], [0], 2], [[1], [0], 2], [[], [], 0]] * 2 + [[[1], [0], []]]
+    if res != want:
+        viol("neighborlist|tiny-cutoff|value", "compute_neighborlist with tiny cutoffs: %s, expected %s (atoms 0 and 1 are 2e-4 nm apart)" % (res, want), dict(cutoffs=[1e-3, 5e-4, 1e-6]))
+
+
 def run(ctx):
     warnings.filterwarnings("ignore")
     import mdtraj as md
@@ -444,6 +486,7 @@ def run(ctx):
     voxel_stream(ctx, viol)
     skewed_large_cutoff_stream(ctx, md, viol)
     degenerate_extent_stream(ctx, md, viol)
+    tiny_cutoff_stream(ctx, md, viol)
     central_query_stream(ctx, md, viol)
     almost_rectangular_stream(ctx, md, viol)
     for key, (what, rp) in seen.items():
